@@ -131,9 +131,45 @@ func (fv *FuncVC) callWithContractEnv(x *ssa.Call, cc *FuncContract, extra map[s
 	if com.IsInvoke() {
 		args = append(args, TV{fv.val(com.Value), com.Value.Type()})
 	}
+	// Interior pointers (&s.field handed to a callee, e.g. the receiver of fs.buffer.more()): the callee's contract
+	// speaks about a cell of its own. The field is copied into a fresh cell before the call and copied back after it
+	// (copy-in / copy-out). Sound as long as the callee cannot reach the enclosing object another way: no other
+	// argument may be derived from the same base object.
+	type interior struct {
+		argIx int
+		addr  *Addr
+		tmp   Term
+		heap  string
+	}
+	var interiors []interior
 	for _, a := range com.Args {
+		if ad, isAddr := fv.addrs[a]; isAddr && len(ad.path) > 0 {
+			if pt, ok := a.Type().Underlying().(*types.Pointer); ok {
+				if _, isStruct := pt.Elem().Underlying().(*types.Struct); isStruct {
+					for _, other := range interiors {
+						if other.addr.heap == ad.heap && other.addr.id == ad.id {
+							specFail("%s: two arguments of the call to %s point into the same object (interior pointers)", fv.name, cc.Key())
+						}
+					}
+					hn := e.cellHeap(pt.Elem())
+					cur := fv.readAddr(ad, fv.st)
+					tmp := fv.newId()
+					fv.updHeap(hn, app("store", fv.st.get(hn), tmp, cur))
+					interiors = append(interiors, interior{argIx: len(args), addr: ad, tmp: tmp, heap: hn})
+					args = append(args, TV{tmp, a.Type()})
+					continue
+				}
+			}
+		}
 		args = append(args, TV{fv.val(a), a.Type()})
 	}
+	defer func() {
+		// copy-out: the enclosing object receives what the callee left in the cell
+		for _, in := range interiors {
+			nv := app("select", fv.st.get(in.heap), in.tmp)
+			fv.writeAddr(in.addr, nv)
+		}
+	}()
 	fv.calleesUsed[cc.Key()] = true
 	if cc.Kind == "external" {
 		k := "external contract (assumed): " + cc.TargetPkg + "." + cc.Name
@@ -206,6 +242,17 @@ func (fv *FuncVC) callWithContractEnv(x *ssa.Call, cc *FuncContract, extra map[s
 	for _, m := range mods {
 		if m.low != "" {
 			fv.oblige("frame@call", "frame@call:"+calleeName, frameProps, fv.writable("", m.low), x.Pos(), fmt.Sprintf("%s may write the scratch region it owns, which must be memory allocated by this call", calleeName))
+			continue
+		}
+		isInterior := false
+		for _, in := range interiors {
+			if m.heap == in.heap && m.id == in.tmp {
+				// the callee writes the field through the interior pointer: the enclosing object must be writable
+				isInterior = true
+				fv.oblige("frame@call", "frame@call:"+calleeName, frameProps, fv.writable(in.addr.heap, in.addr.id), x.Pos(), fmt.Sprintf("%s may write a field of an object in %s, which must be writable here", calleeName, in.addr.heap))
+			}
+		}
+		if isInterior {
 			continue
 		}
 		fv.oblige("frame@call", "frame@call:"+calleeName, frameProps, fv.writable(m.heap, m.id), x.Pos(), fmt.Sprintf("%s may write %s, which must be writable here", calleeName, m.heap))
